@@ -8,7 +8,8 @@ StepStyled(e) == e.ev = "styled" /\
   LET f == StyledFails(e) IN
   Report(e.case, f, IF f = {} THEN <<>> ELSE [kind |-> e.kind, shape_box |-> e.shape_box, fill_box |-> e.fill_box,
                                               stroke_box |-> e.stroke_box, diff |-> Differences(e)])
-StepPanic(e)  == e.ev = "panic"
+\* a library call of this case panicked: the property promises a result for every input of its domain
+StepPanic(e) == e.ev = "panic" /\ Report(e.case, {"library_call_panicked"}, [msg |-> e.msg, loc |-> e.loc])
 Next == /\ l <= NRec
         /\ LET e == Rec[l] IN StepCase(e) \/ StepStyled(e) \/ StepPanic(e)
         /\ l' = l + 1
